@@ -287,6 +287,7 @@ impl Cqueue {
         }
 
         let deadline = timeout.map(|dur| Instant::now() + dur);
+        let mut remaining = timeout;
         loop {
             // read the count before the queue: when it is zero every Done event
             // is already pushed, so an empty queue means they were all consumed
@@ -306,7 +307,7 @@ impl Cqueue {
             // re-check the queue
             match self.ev_queue.pop() {
                 None => {
-                    cur.park(timeout).ok();
+                    cur.park(remaining).ok();
                 }
                 Some(mut ev) => {
                     self.to_wake.take();
@@ -315,9 +316,13 @@ impl Cqueue {
             }
 
             // check the timeout
-            match deadline {
-                Some(d) if Instant::now() >= d => return Err(PollError::Timeout),
-                _ => {}
+            if let Some(d) = deadline {
+                let now = Instant::now();
+                if now >= d {
+                    return Err(PollError::Timeout);
+                }
+                // wait only for what is left of the timeout
+                remaining = Some(d.saturating_duration_since(now));
             }
         }
     }
